@@ -22,7 +22,7 @@ OPMAP = {  # static Op -> (level, run-time kernel)
     "Add": ("instr", "add"), "Subtract": ("instr", "sub"), "Multiply": ("instr", "mul"), "Divide": ("instr", "div"), "Modulo": ("instr", "rem"),
     "Lt": ("instr", "lt"), "Gt": ("instr", "gt"), "Lte": ("instr", "le"), "Gte": ("instr", "ge"), "Eq": ("instr", "equals"), "Neq": ("instr", "nequals"),
     "And": ("instr", "and"), "Or": ("instr", "or"), "Xor": ("instr", "bxor"),
-    "AddAssign": ("fn", "add"), "SubAssign": ("fn", "sub"), "MulAssign": ("fn", "mul"), "DivAssign": ("fn", "div"), "ModAssign": ("fn", "rem"),
+    "AddAssign": ("assign", "add"), "SubAssign": ("assign", "sub"), "MulAssign": ("assign", "mul"), "DivAssign": ("assign", "div"), "ModAssign": ("assign", "rem"),
     "BinaryXor": ("instr", "bitxor"), "BinaryOr": ("instr", "bitor"), "BinaryAnd": ("instr", "bitand"), "BitwiseLs": ("instr", "shl"), "BitwiseRs": ("instr", "shr"),
 }
 OUTSIDE = {"Unwrap": "`?=` is typed by its own rule (C12)", "Is": "`is` compares identities; its run-time arm is outside the encoded kernels"}
@@ -79,7 +79,8 @@ def check(scratch, a, t0):
     def summary(level, op, kinds):
         key = (level, op, tuple(kinds))
         if key not in summ_cache:
-            summ_cache[key] = ker.summarize_instr(op, list(kinds)) if level == "instr" else ker.summarize(op, list(kinds))
+            summ_cache[key] = (ker.summarize_instr(op, list(kinds)) if level == "instr" else
+                               ker.summarize_assign(op, list(kinds)) if level == "assign" else ker.summarize(op, list(kinds)))
         return summ_cache[key]
 
     qs = Q.QueryStats()
@@ -131,7 +132,7 @@ def check(scratch, a, t0):
     def mk(static_name, arm_static, cls, level, op, kinds, vals, detail, pred=None):
         f = Q.Finding("C02", static_name, ",".join(arm_static), cls, "any", [(kinds[i], vals[i]) for i in range(len(kinds))] if vals else [], detail,
                       predicted=list(pred) if pred else None)
-        f.native_op = ("I:" + op) if level == "instr" else op
+        f.native_op = ("I:" + op) if level == "instr" else ("A:" + op) if level == "assign" else op
         f.kinds = kinds
         return f
 
